@@ -98,10 +98,19 @@ def files(ctx, out):
     rng = ctx.sub("files")
     prof = gen.Profile(max_tracks=2, garbage=0.0, unknown_sections=0.0, crlf=0.0, shuffle_sections=0.3)
     reqs, meta = [], []
-    for _ in range(ctx.n(40, 3000)):
+    for k_ in range(ctx.n(40, 3000)):
         src = gen.rand_src(rng, prof)
+        if k_ % 10 == 0:
+            # always some files whose values hold characters that mean something at the start of a file only (U+FEFF) or are invisible
+            src.gevents = [(0, "text", rng.choice(["a\ufeffb", "\ufeff", "x\u200by\ufeff"])), (0, "lyric", "la\ufeff-")] + src.gevents
+            src.meta["name"] = "N\ufeffame"
         R = gen.render(src, rng, prof, newline="\n")
         base = impl.run_path(R.text.encode("utf-8"))
+        xs = impl.run_chart(R.text)
+        if xs != base:
+            p_, q_ = fw.first_diff(xs, base)
+            rp0 = {"op": "path", "hex": R.text.encode("utf-8").hex(), "base_hex": R.text.encode("utf-8").hex(), "stream": True}
+            out.violation("file-" + fw.h(rp0), f"a file read by path parses differently from its own text read as a stream: {p_!r} vs {q_!r}", rp0, observed=q_, promised=p_)
         for nm, data in (("bom", b"\xef\xbb\xbf" + R.text.encode("utf-8")), ("crlf", R.text.replace("\n", "\r\n").encode("utf-8")),
                          ("bom+crlf", b"\xef\xbb\xbf" + R.text.replace("\n", "\r\n").encode("utf-8")),
                          ("cr", R.text.replace("\n", "\r").encode("utf-8"))):
@@ -438,6 +447,8 @@ def replay(ctx, data):
         return (strip_warn(xp) != strip_warn(xb) or xc != xb), str(fw.first_diff(xb, xp if strip_warn(xp) != strip_warn(xb) else xc))
     if op == "path":
         x, b = impl.run_path(bytes.fromhex(data["hex"])), impl.run_path(bytes.fromhex(data["base_hex"]))
+        if data.get("stream"):
+            b = impl.run_chart(bytes.fromhex(data["base_hex"]).decode("utf-8"))
         return x != b, str(fw.first_diff(b, x))
     if op == "missing":
         x = impl.run_chart(data["text"])
